@@ -776,6 +776,7 @@ func layoutFromFunc(f *cat.Fn, ft reflect.Type) (*layout, error) {
 			g := pgroup{obj: true, typ: t}
 			for j := 1; j < t.NumField(); j++ {
 				g.idxs = append(g.idxs, idx)
+				g.tree = append(g.tree, pnode{idx: idx})
 				idx++
 			}
 			l.ps = append(l.ps, g)
